@@ -1202,6 +1202,8 @@ func (g *gen) genFunc() {
 	saveOut, saveScopes, saveDepth := g.out, g.scopes, g.depth
 	saveBudget := g.budget
 	saveNoDefer := g.noDefer
+	saveHasDefer := g.hasDefer
+	g.hasDefer = false
 	g.out = &strings.Builder{}
 	g.scopes = nil
 	g.depth = 0
@@ -1271,6 +1273,7 @@ func (g *gen) genFunc() {
 	g.pop()
 	body := g.out.String()
 	g.out, g.scopes, g.depth, g.budget, g.noDefer = saveOut, saveScopes, saveDepth, saveBudget, saveNoDefer
+	g.hasDefer = saveHasDefer
 	g.pendingDecls = append(g.pendingDecls, body+"\n")
 	g.funcs = append(g.funcs, f)
 	if len(f.results) == 2 {
@@ -1278,10 +1281,20 @@ func (g *gen) genFunc() {
 	}
 }
 
+// retExprs builds the operands of a return statement. In a function that has
+// registered a defer they are plain variables or literals: ego runs deferred
+// calls before it evaluates the operands of an unnamed-result return (its own
+// corpus, tests/defer/basic.ego, pins that), Go after, so an operand with a
+// visible side effect would print in a different order -- recorded as a known
+// finding of C01, kept out of the search by construction.
 func (g *gen) retExprs(f function) string {
 	var rs []string
+	depth := 2
+	if g.hasDefer {
+		depth = 0
+	}
 	for _, r := range f.results {
-		rs = append(rs, g.expr(r, 2).s)
+		rs = append(rs, g.expr(r, depth).s)
 	}
 	return strings.Join(rs, ", ")
 }
